@@ -104,6 +104,7 @@ struct LatticeBox {
                     else if (fn == "addSzSz") LatticePresets::addSzSz(L, S(1), S(2), V(3));
                     else if (fn == "addSS") LatticePresets::addSS(L, S(1), S(2), V(3));
                     else if (fn == "addHopping8") LatticePresets::addHopping(L, S(1), S(2), V(3), I(4), I(5), I(6), I(7));
+                    else if (fn == "addHopping8c") LatticePresets::addHopping(L, S(1), S(2), mk_melem(double(f[3].get<long>()) / den, double(f[4].get<long>()) / den), I(5), I(6), I(7), I(8));
                     else if (fn == "addHopping7") LatticePresets::addHopping(L, S(1), S(2), V(3), I(4), I(5), I(6));
                     else if (fn == "addHopping6") LatticePresets::addHopping(L, S(1), S(2), V(3), I(4), I(5));
                     else if (fn == "addHopping4") LatticePresets::addHopping(L, S(1), S(2), V(3));
